@@ -99,8 +99,13 @@ Definition clock_floats (ok : bool) (kv : list (string * string)) : option (list
   b <- alookup "sat_clock_bias" kv ;; d <- alookup "sat_clock_drift" kv ;; r <- alookup "sat_clock_drift_rate" kv ;;
   floats ok [("sat_clock_bias", b); ("sat_clock_drift", d); ("sat_clock_drift_rate", r)].
 
-Definition epoch_fields (ok : bool) (sys sat : string) (ytxt : string) (kv : list (string * string)) : option rres :=
-  y <- parse_int ytxt ;;
+(* rinex2/rinex212: two-digit year -> 80..99 = 19yy, 00..79 = 20yy:  int("19" + text.zfill(2)) / int("20" + text.zfill(2)) *)
+Definition year_v2 (ytxt : string) : option Z :=
+  yy <- parse_int ytxt ;;
+  parse_int ((if ((80 <=? yy) && (yy <=? 99))%Z then "19" else "20") ++ zfill 2 ytxt).
+
+Definition epoch_fields (ok : bool) (sys sat : string) (oy : option Z) (kv : list (string * string)) : option rres :=
+  y <- oy ;;
   mo <- bind (alookup "month" kv) parse_int ;;
   d <- bind (alookup "day" kv) parse_int ;;
   h <- bind (alookup "hour" kv) parse_int ;;
@@ -127,7 +132,7 @@ Definition parse_epoch3 (q : quirks) (kv : list (string * string)) : rres :=
     if mem sys ["S"; "R"] then Some RSkip else
     prn <- alookup "sat_num" kv ;;
     ytxt <- alookup "year" kv ;;
-    epoch_fields (negb (q_lower_d q)) sys (sys ++ zfill 2 prn) ytxt kv
+    epoch_fields (negb (q_lower_d q)) sys (sys ++ zfill 2 prn) (parse_int ytxt) kv
   end).
 
 (* Rinex2NavParser / Rinex212NavParser._parse_observation_epoch; sys2 = system from the file extension *)
@@ -139,10 +144,8 @@ Definition parse_epoch2 (q : quirks) (sys2 : string) (kv : list (string * string
   | None =>
     prn <- alookup "sat" kv ;;
     ytxt <- alookup "year" kv ;;
-    yy <- parse_int ytxt ;;
-    let century := if ((80 <=? yy) && (yy <=? 99))%Z then "19" else "20" in
     let sat := sys2 ++ zfill 2 prn in
-    epoch_fields (negb (q_lower_d q)) (take 1 sat) sat (century ++ zfill 2 ytxt) kv
+    epoch_fields (negb (q_lower_d q)) (take 1 sat) sat (year_v2 ytxt) kv
   end).
 
 Definition parse_epoch (v : version) (q : quirks) (sys2 : string) kv : rres :=
@@ -258,6 +261,13 @@ Definition fields_sub (a b : list fielddef) : bool := forallb (fun f => existsb 
 Definition line_sub (t u : table) : bool :=
   forallb (fun kv => match tlookup (fst kv) u with Some fs => fields_sub (snd kv) fs && fields_sub fs (snd kv) | None => false end) t.
 Definition table_equiv (t u : table) : bool := line_sub t u && line_sub u t && Nat.eqb (length t) (length u).
+
+(* no field name twice in a line; then the order of the fields of a line (a Python dict) does not matter *)
+Fixpoint nodupb (l : list string) : bool :=
+  match l with [] => true | x :: r => negb (mem x r) && nodupb r end.
+Definition table_ok (v : version) (t : table) : bool :=
+  table_equiv (layout v) t && forallb (fun kv : nat * list fielddef => nodupb (map fst (snd kv))) t
+  && forallb (fun kv : nat * list fielddef => nodupb (map fst (snd kv))) (layout v).
 
 (* a record of the generating model *)
 Record nrec := mkN {
@@ -393,6 +403,13 @@ Definition sec_value (ms : bool) (s : dec) : Q :=
   let frac7 := Qfloor ((x - inject_Z whole) * 10000000) in
   if ms then (inject_Z whole + inject_Z frac7 / 1000)%Q else x.
 
+(* the code after fix d94f10c: "{second:010.7f}" split at the point; fraction = int(7 digits) / 10 microseconds *)
+Definition sec_fixed (s : dec) : Q :=
+  let x := dec_toQ s in
+  let whole := Qfloor x in
+  let frac7 := Qfloor ((x - inject_Z whole) * 10000000) in
+  (inject_Z whole + inject_Z frac7 / 10000000)%Q.
+
 (* record epoch in seconds since the GPS epoch, shifted to the GPS scale *)
 Definition toc_abs (ms : bool) (p : prec) : Q :=
   let '(y, mo, d, h, mi) := p_civil p in
@@ -417,6 +434,17 @@ Definition cross (q : quirks) (rows : list (Q * Q * Q)) : list Q :=
          if Qlt_b halfQ (d r) then (base + weekQ)%Q
          else if Qlt_b (d r) (- halfQ) then (if q_elif q && anyp then base else (base - weekQ)%Q)
          else base) rows.
+
+(* the arithmetic of the code after fix 414cbad: Time(week, seconds) normalised to (week', 0 <= seconds' < 604800);
+   difference to the record epoch from both weeks and seconds of week; both directions, per record; Time(week', seconds'') *)
+Definition cross_fixed (rows : list (Q * Q * Q)) : list Q :=
+  map (fun r : Q * Q * Q => let '(toc, wb, s) := r in
+         let lit := (wb + s)%Q in
+         let wk := inject_Z (Qfloor (lit / weekQ)) in
+         let sec := qmod lit weekQ in
+         let diff := ((inject_Z (Qfloor (toc / weekQ)) - wk) * weekQ + qmod toc weekQ - sec)%Q in
+         let sec' := if Qlt_b halfQ diff then (sec + weekQ)%Q else if Qlt_b diff (- halfQ) then (sec - weekQ)%Q else sec in
+         (wk * weekQ + sec')%Q) rows.
 
 Definition week_val (p : prec) : Q :=
   match pval "gnss_week" p with Some w => (w + inject_Z (spec_woff (p_sys p)))%Q | None => 0 end.
